@@ -26,6 +26,8 @@ RULE = (
     "attribute reference. Distinct by source text + data."
 )
 ASSUMPTIONS = [
+    "Inputs may be DAGs (one node object reachable from two parents), as the library itself produces them; the reference "
+    "transform works on a deep copy (which preserves the sharing) and builds fresh nodes.",
     "Operator calls carry positional arguments only (keywords have no function-form meaning in the statement).",
     "Value equality is checked on the LINQ subset with python sequences; CPython is the evaluator.",
 ]
@@ -143,7 +145,10 @@ def _expr(draw, ty, depth, ivars, svars):
         if k == 2:
             return _call(draw, "ResultPandasDF", s, ["['c']"])
         return f"({s}).ResultParquet(['c'], 'f.pq')"
-    k = draw(st.integers(0, 1)) if leaf else draw(st.integers(1, 14))
+    k = draw(st.integers(0, 1)) if leaf else draw(st.integers(1, 15))
+    if k == 15:  # the same sub-expression twice: check() turns the two occurrences into ONE shared node (a DAG)
+        a = draw(_expr('I', d, ivars, svars))
+        return f"({a} + {a})"
     if k == 11:
         return f"kw(v={draw(_expr('I', d, ivars, svars))}, w={draw(_expr('I', d, ivars, svars))})"
     if k == 12:
@@ -262,11 +267,14 @@ def check(case) -> Result:
 
     r = Result(sample=case, key=case["src"] + repr(case["data"]))
     tree = ast.parse(case["src"], mode="eval").body
+    n_shared = _share_equal_subtrees(tree)
     depths = _depths(tree)
     look = [n for n in ast.walk(tree) if isinstance(n, ast.Attribute) and n.attr in LOOKALIKE]
     attr_refs = [n for n in ast.walk(tree) if isinstance(n, ast.Attribute) and n.attr in OPS]
     n_ref = len(attr_refs) - len(depths)
     r.labels.append(f"method-ops:{min(len(depths), 4)}")
+    if n_shared:
+        r.labels.append("shared-subtree(DAG)")
     if look:
         r.labels.append("lookalike")
     if n_ref > 0:
@@ -311,6 +319,17 @@ def check(case) -> Result:
         if val != expect:
             return r.fail(f"value changed {expect} -> {val}; input {case['src']}")
     return r
+
+
+def _share_equal_subtrees(tree):
+    """func_adl routinely produces DAGs (substituted arguments, copy-on-write): make the operands of `X + X` one shared object"""
+    n = 0
+    for node in ast.walk(tree):
+        if isinstance(node, ast.BinOp) and isinstance(node.op, ast.Add) and isinstance(node.left, (ast.Call, ast.Attribute, ast.Subscript)) \
+                and ast.dump(node.left) == ast.dump(node.right):
+            node.right = node.left
+            n += 1
+    return n
 
 
 def _unp(t):
